@@ -204,7 +204,8 @@ pub fn draw_coord(rng: &mut Rng, lim: f64) -> f64 {
 #[derive(Clone, Copy, Debug, Serialize, Deserialize, PartialEq, Eq)]
 pub struct Meta {
     /// 0 empty, 1 flat strings, 2 nested / unicode, 3 numbers, 4 large, 5 very large
-    /// (hundreds of KiB, mostly incompressible text)
+    /// (hundreds of KiB, mostly incompressible text), 6 enormous (n MiB of repetitive text;
+    /// never drawn at random, placed by the scenarios that want it)
     pub kind: u8,
     pub seed: u64,
     pub n: u32,
@@ -244,6 +245,16 @@ impl Meta {
                 for i in 0..self.n {
                     m.insert(format!("n{i}"), rand_number(&mut r, true));
                 }
+            }
+            6 => {
+                let unit = format!("{{layer {}: abcdefghijklmnopqrstuvwxyz é}} ", r.below(1000));
+                let len = (self.n as usize) * (1 << 20) + r.usize_below(70_000);
+                let mut t = String::with_capacity(len + unit.len());
+                while t.len() < len {
+                    t.push_str(&unit);
+                }
+                m.insert("description".into(), Value::String(t));
+                m.insert("name".into(), Value::String("enormous".into()));
             }
             5 => {
                 let alphabet = b"abcdefghijklmnopqrstuvwxyzABCDEFGHIJKLMNOPQRSTUVWXYZ0123456789-_ ";
@@ -317,8 +328,11 @@ fn rand_value(r: &mut Rng, depth: u32, floats: bool) -> Value {
 }
 
 /// Non-object JSON values, for the C19 metadata-shape contract.
-pub fn non_object_json(kind: u8) -> &'static str {
-    match kind % 8 {
+/// Valid JSON that is not an object. `kind % 8` selects the value kind; `kind / 8` > 0 varies the
+/// document: leading/trailing blanks and, for strings and arrays, a long body of multi-byte
+/// characters (lengths around powers of two).
+pub fn non_object_json(kind: u8) -> String {
+    let base = match kind % 8 {
         0 => "null",
         1 => "true",
         2 => "false",
@@ -327,7 +341,23 @@ pub fn non_object_json(kind: u8) -> &'static str {
         5 => "\"a string\"",
         6 => "[]",
         _ => "[{\"a\":1},2]",
+    };
+    if kind / 8 == 0 {
+        return base.to_string();
     }
+    let mut r = Rng::new(0x4e4f_4e4f ^ u64::from(kind));
+    let lead = " ".repeat(r.usize_below(4));
+    let trail = ["", " ", "\n", "\r\n\t "][r.usize_below(4)];
+    let n = *r.pick(&[0usize, 1, 7, 15, 16, 17, 30, 31, 32, 33, 62, 63, 64, 65, 100, 127, 128, 129, 255, 256, 257, 1000, 4097]);
+    let ch = *r.pick(&["é", "ß", "日", "🗺", "\u{2028}", "a"]);
+    let body = match kind % 8 {
+        3 => "1234567890".repeat(1 + (n / 40).min(25)) + ".5e-3",
+        5 => format!("\"{}\"", ch.repeat(n)),
+        6 => format!("[{}]", vec![format!("\"{ch}\""); n.min(300)].join(",")),
+        7 => format!("[{{\"{}\":1}},2]", ch.repeat(n)),
+        _ => base.to_string(),
+    };
+    format!("{lead}{body}{trail}")
 }
 
 // ---------------------------------------------------------------------------------------------
@@ -353,7 +383,7 @@ pub struct Archive {
 
 #[derive(Clone, Copy, Debug, Serialize, Deserialize, PartialEq, Eq)]
 pub struct BigGen {
-    /// 1 LongRun, 2 ManyRegular, 3 Gigantic, 4 Colossal
+    /// 1 LongRun, 2 ManyRegular, 3 Gigantic, 4 Colossal, 5 Titanic
     pub class: u8,
     pub seed: u64,
 }
@@ -400,6 +430,17 @@ pub fn big_tiles(class: u8, seed: u64) -> Vec<Tile> {
     let rng = &mut r;
     let mut tiles: Vec<Tile> = Vec::new();
     match class {
+        5 => {
+            // ids about 2^40 apart: a pointer to a 4096-entry leaf costs 13 bytes, so more than
+            // 1251 leaves (5.13 million entries) push the first pointer root over the budget
+            let n = 5_300_000 + rng.below(200_000);
+            let mut id = rng.below(10);
+            tiles.reserve(n as usize);
+            for i in 0..n {
+                tiles.push(Tile { id, c: Cont { k: 1, seed: (i % 3) as u32, len: 1 } });
+                id += (1 << 39) + rng.below(1 << 39);
+            }
+        }
         4 => {
             let n = 1_250_000 + rng.below(150_000);
             let mut id = rng.below(10);
@@ -465,6 +506,9 @@ pub enum SizeClass {
     /// about 1.3 million non-mergeable entries over three tiny contents: even 512-entry leaves
     /// give a pointer root above the budget
     Colossal,
+    /// about 5.4 million non-mergeable entries at ids ~2^40 apart: the pointer root over
+    /// 4096-entry leaves is above the budget, so the writer has to grow the leaves and retry
+    Titanic,
     /// more than 65 536 regular entries (distinct equal-size contents at consecutive ids): with a
     /// compressing codec they all fit one root directory
     ManyRegular,
@@ -489,11 +533,12 @@ pub fn draw_archive(rng: &mut Rng, size: SizeClass, ic: u8) -> Archive {
     let meta = Meta::draw(rng);
     let mut tiles = Vec::new();
     match size {
-        SizeClass::Colossal | SizeClass::Gigantic | SizeClass::ManyRegular | SizeClass::LongRun => {
+        SizeClass::Titanic | SizeClass::Colossal | SizeClass::Gigantic | SizeClass::ManyRegular | SizeClass::LongRun => {
             let class = match size {
                 SizeClass::LongRun => 1,
                 SizeClass::ManyRegular => 2,
                 SizeClass::Gigantic => 3,
+                SizeClass::Titanic => 5,
                 _ => 4,
             };
             return Archive { tiles: Vec::new(), meta, set, gen: Some(BigGen { class, seed: rng.next_u64() }) };
